@@ -346,7 +346,7 @@ func concurrentC11(t *testing.T, r *ev.Run) {
 								return
 							}
 							var active atomic.Int32
-							var closeReturned atomic.Bool
+							var closeReturned, closeStarted atomic.Bool
 							var wg sync.WaitGroup
 							var mu sync.Mutex
 							var order []string
@@ -387,8 +387,11 @@ func concurrentC11(t *testing.T, r *ev.Run) {
 											return nil
 										})
 										if err != nil {
-											if ran || !strings.Contains(err.Error(), "already been destroyed") {
-												bad("c11-reader-error", fmt.Sprintf("%s R=%d C=%d: reader error %v (callback ran=%v)", impl, R, C, err, ran))
+											// an access may only be refused once somebody has started closing the secret (decided
+											// from the harness's own flag, not from the error text), and then the callback must not
+											// have run
+											if ran || !closeStarted.Load() {
+												bad("c11-reader-error", fmt.Sprintf("%s R=%d C=%d: reader error %v (callback ran=%v, a Close had been started=%v)", impl, R, C, err, ran, closeStarted.Load()))
 											}
 											note("r-closed")
 										} else {
@@ -408,6 +411,7 @@ func concurrentC11(t *testing.T, r *ev.Run) {
 									} else if delay == 2 {
 										time.Sleep(time.Microsecond)
 									}
+									closeStarted.Store(true)
 									if err := s.Close(); err != nil {
 										bad("c11-close-error", fmt.Sprintf("%s R=%d C=%d: Close: %v", impl, R, C, err))
 									}
